@@ -8,7 +8,7 @@
                                       worktree of /repo HEAD and confirm that the check of the property it breaks reports
                                       a VIOLATION there (about a minute per change)
 """
-import json, os, subprocess, sys
+import json, os, re, subprocess, sys
 VERIF = os.path.dirname(os.path.dirname(os.path.abspath(__file__)))
 RUNNER = os.path.join(VERIF, "bnpsim", "runner.py")
 PY = sys.executable
@@ -45,13 +45,20 @@ def determinism(n):
                 print("    differing run indices:", diff[:10])
     # worker-count independence of the aggregate digest (small fixed run count)
     for prop in ("C01", "C12"):
-        ds = []
+        ds, counts = [], []
+        n_runs = "24" if prop == "C01" else "96"     # one worker must finish them inside the quick tier's wall budget
         for workers in (1, 16):
-            env = dict(os.environ, BNPSIM_WORKERS=str(workers), BNPSIM_RUNS="96", BNPSIM_REPO="/repo")
-            subprocess.run([os.path.join(VERIF, "check"), prop, "quick"], capture_output=True, text=True, env=env, cwd=VERIF)
+            env = dict(os.environ, BNPSIM_WORKERS=str(workers), BNPSIM_RUNS=n_runs, BNPSIM_REPO="/repo")
+            p = subprocess.run([os.path.join(VERIF, "check"), prop, "quick"], capture_output=True, text=True, env=env, cwd=VERIF)
             ds.append(json.load(open(os.path.join(VERIF, "evidence", prop + ".json")))["coverage"]["determinism_digest"])
+            m = re.search(r"runs=(\d+)", p.stdout)
+            counts.append(int(m.group(1)) if m else -1)
+        if counts[0] != counts[1]:
+            print(f"determinism {prop}: 1 vs 16 workers completed {counts[0]} vs {counts[1]} runs inside the wall budget - not comparable")
+            bad += 1
+            continue
         ok = ds[0] == ds[1]
-        print(f"determinism {prop}: aggregate digest at 1 vs 16 workers {'equal' if ok else 'DIFFERS'}")
+        print(f"determinism {prop}: aggregate digest at 1 vs 16 workers {'equal' if ok else 'DIFFERS'} ({counts[0]} runs each)")
         bad += 0 if ok else 1
     return 1 if bad else 0
 
